@@ -138,6 +138,11 @@ func (s *Session) wait() {
 	case <-s.ctx.Done():
 		s.state.Set(stateClosing)
 	}
+	// The Kill Date may have passed while we were sleeping, check it again
+	// before the caller connects.
+	if s.IsClient() && !s.kill.IsZero() && time.Now().After(s.kill) {
+		s.state.Set(stateClosing)
+	}
 }
 
 // Wake will interrupt the sleep of the current Session thread. This will
